@@ -106,6 +106,7 @@ class LoopSpec:
         self.body_start = []
         self.after = []
         self.hoisted = []
+        self.before = []
 
 
 class Generated:
@@ -241,7 +242,7 @@ class Unit:
         spec.file, spec.container, spec.name = parts[0], parts[1], parts[2]
         if len(parts) > 3 and parts[3].startswith('closure'):
             sel = parts[3].split(None, 1)[1].strip()
-            spec.closure = [sel] if sel.startswith('~') else [int(x) for x in sel.split('.')]
+            spec.closure = [(x.strip() if x.strip().startswith('~') else int(x)) for x in (sel.split('/') if '~' in sel else sel.split('.'))]
         spec.key = '%s::%s%s' % (spec.file, spec.name, ('#closure%s' % '.'.join(map(str, spec.closure))) if spec.closure is not None else '')
         cur = None  # list to append content lines to
         curloop = None
@@ -282,7 +283,8 @@ class Unit:
             elif word == 'start':
                 cur = spec.start
             elif word == 'loop':
-                k = int(rest.split()[0])
+                k0 = rest.split()[0]
+                k = k0 if k0.startswith('~') else int(k0)
                 curloop = spec.loops.setdefault(k, LoopSpec())
                 m = re.search(r'label=(\w+)', rest)
                 if m:
@@ -301,6 +303,8 @@ class Unit:
                 cur = curloop.after
             elif word == 'hoisted':
                 cur = curloop.hoisted
+            elif word == 'before_loop':
+                cur = curloop.before
             elif word in ('before', 'after'):
                 a = (word, rest, [])
                 spec.anchors.append(a); cur = a[2]
@@ -493,6 +497,7 @@ class Unit:
                 ls.body_start = [sub(x) for x in ls.body_start]
                 ls.after = [sub(x) for x in ls.after]
                 ls.hoisted = [sub(x) for x in ls.hoisted]
+                ls.before = [sub(x) for x in ls.before]
                 ls.decreases = [sub(x) for x in ls.decreases]
         spec.src_span = (f, src_first, src_last)
 
@@ -561,10 +566,25 @@ class Unit:
         loops = [m for m in find_code(body, bmask, r'(?<![\w])(for|while|loop)\b')]
         loops = [m for m in loops if not re.match(r'for\s*<', body[m.start():])]
         inserts = []  # (pos, text)  pos in body
-        for k, ls in sorted(spec.loops.items()):
-            if k >= len(loops):
-                raise Undecided('lost anchor: loop %d in %s (found %d loops)' % (k, spec.key, len(loops)))
-            m = loops[k]
+        def _loop_extent(m_):
+            j_ = m_.end()
+            while not (bmask[j_] and body[j_] == '{'):
+                if bmask[j_] and body[j_] in '([':
+                    j_ = match_close(body, bmask, j_)
+                j_ += 1
+            return j_, match_close(body, bmask, j_)
+        for k, ls in sorted(spec.loops.items(), key=lambda kv: str(kv[0])):
+            if isinstance(k, str):
+                # `~regex`: the unique loop whose text (header and body) matches
+                rx_ = re.compile(k[1:], re.S)
+                hits = [mm for mm in loops if rx_.search(body[mm.start():_loop_extent(mm)[1] + 1])]
+                if len(hits) != 1:
+                    raise Undecided('lost anchor: %d loops match %r in %s' % (len(hits), k, spec.key))
+                m = hits[0]
+            else:
+                if k >= len(loops):
+                    raise Undecided('lost anchor: loop %d in %s (found %d loops)' % (k, spec.key, len(loops)))
+                m = loops[k]
             # loop body open brace: first '{' at code position, bracket depth 0 after keyword
             j = m.end()
             while not (bmask[j] and body[j] == '{'):
@@ -587,8 +607,8 @@ class Unit:
                     im = re.match(r'(.+)\.iter\(\)$', expr, re.S)
                     if not im:
                         raise Undecided('hoist: loop %d in %s does not iterate over <expr>.iter()' % (k, spec.key))
-                    gname = '__guard%d' % k
-                    pre = '{ let %s = %s; %s' % (gname, im.group(1), ('\n' + '\n'.join(ls.hoisted) + '\n') if ls.hoisted else '')
+                    gname = '__guard%d' % (loops.index(m))
+                    pre = '{ let %s = %s; %s' % (gname, im.group(1), ('\n' + '\n'.join(x.replace('${GUARD}', gname) for x in ls.hoisted) + '\n') if ls.hoisted else '')
                     expr = '%s.iter()' % gname
                     post = ' }'
                     gen.rewrite_log.append(dict(rule='R2', file=f, fn=spec.key, before=' '.join(head.split()), after='{ let %s = ..; for .. in %s.iter() }' % (gname, gname)))
@@ -603,7 +623,8 @@ class Unit:
         for (hs, he, new_head, clause_txt, ls, lbopen, lbclose, post) in sorted(inserts, key=lambda x: -x[0]):
             after_txt = ('\n' + '\n'.join(ls.after) + '\n') if ls.after else ''
             bs_txt = ('\n' + '\n'.join(ls.body_start) + '\n') if ls.body_start else ''
-            body = (body[:hs] + new_head + '\x00LOOPCLAUSES%d\x00' % id(ls) + '{' + bs_txt + body[lbopen + 1:lbclose + 1]
+            before_txt = ('\n'.join(ls.before) + '\n') if ls.before else ''
+            body = (body[:hs] + before_txt + new_head + '\x00LOOPCLAUSES%d\x00' % id(ls) + '{' + bs_txt + body[lbopen + 1:lbclose + 1]
                     + after_txt + post + body[lbclose + 1:])
             loop_marks.append(ls)
 
